@@ -15,10 +15,13 @@
     the tail — so events are processed in acceptance order, each once;
   * `C13_only_from_queue`: the event in progress changes only by such a pop or by finishing:
     every other step of either machine leaves `ucmd` as it is or clears it;
+  * `C13_fifo_exactly_once`, `C13_taken_prefix`: the trace-level statement over any history
+    (`Proofs/Fifo.lean`): accepted events = handled events ++ waiting events, in order;
   * `C13_observers`: `cat_is_unsolicited_event_buffered` reports BUSY iff the event is the one in
     progress or is in the abstract queue (wildcard type honoured).
 -/
 import CatVerif.Proofs.RingInvP
+import CatVerif.Proofs.Fifo
 namespace Cat
 open St
 
@@ -115,5 +118,24 @@ theorem C13_observers (D : Desc) (s : St) (c : Nat) (t : CmdType) :
 example : RingInv { (default : Desc) with cap := 2 }
     { (default : St) with ring := [(0, .read), (7, .test)], rhead := 1, rtail := 0, rcount := 1 } :=
   ⟨by decide, by decide, by decide, by decide, by decide⟩
+
+/-- **Trace level**: over any history of API calls (any callbacks, nested triggers included; the
+unlock of trigger calls succeeding), the accepted events in acceptance order are exactly the
+events handed to the unsolicited machine in that order followed by those still waiting.  So the
+k-th event handled is the k-th accepted, none is handled twice, none refused is ever handled, and
+none accepted is lost. -/
+theorem C13_fifo_exactly_once (D : Desc) (buf ubuf : List Byte) (mem : List (List Byte)) (ops : List Op)
+    (hc : 0 < D.cap) (hq : ∀ op ∈ ops, OpQ op) :
+    let w0 : World := ⟨D, init D buf ubuf mem⟩
+    histAccepted w0 ops = histTaken w0 ops ++ ringItems (runOps w0 ops).1.D (runOps w0 ops).1.s := by
+  have h := runOps_fifo ops ⟨D, init D buf ubuf mem⟩ hq (init_ringInv D buf ubuf mem hc)
+  have e : ringItems D (init D buf ubuf mem) = [] := by simp [ringItems, init]
+  simpa [e] using h
+
+/-- hence what has been handled is always a prefix of what has been accepted -/
+theorem C13_taken_prefix (D : Desc) (buf ubuf : List Byte) (mem : List (List Byte)) (ops : List Op)
+    (hc : 0 < D.cap) (hq : ∀ op ∈ ops, OpQ op) :
+    histTaken ⟨D, init D buf ubuf mem⟩ ops <+: histAccepted ⟨D, init D buf ubuf mem⟩ ops :=
+  ⟨_, (C13_fifo_exactly_once D buf ubuf mem ops hc hq).symm⟩
 
 end Cat
